@@ -50,24 +50,7 @@ func runC13(c *Ctx) {
 	c.Floors["G"] = 25
 	c.Floors["S"] = 120
 
-	// ---- AddPart ------------------------------------------------------------------------------------
-	if fn := c.Fn("types", "PartSet", "AddPart"); fn != nil {
-		c.Guarded(fn, "store ps.parts[part.Index] / count++", StoreTo(`^&ps\.(parts\[part\.Index\]|count)$`),
-			G("part.Index < ps.total", Cmp(`^part\.Index$`, "<", `^ps\.total$`)),
-			G("ps.parts[part.Index] == nil", IsNil(`^ps\.parts\[part\.Index\]$`)),
-			G("part.Proof.Verify(ps.Hash(), part.Bytes) == nil", IsNil(`^call:\(\*lib/merkle\.SimpleProof\)\.Verify\(&part\.Proof, call:\(lib/common\.Hash\)\.Bytes\(call:\(\*types\.PartSet\)\.Hash\(ps\)\), part\.Bytes\)$`)),
-			G("part.Proof.Index == part.Index (the slot is the index the proof verified)", Cmp(`^part\.Proof\.Index$`, "==", `^part\.Index$`)),
-			G("part.Proof.Total == ps.total (the proof is for a tree of this many parts)", Cmp(`^part\.Proof\.Total$`, "==", `^ps\.total$`)))
-		for _, in := range findInstrs(fn, StoreTo(`^&ps\.parts\[`)) {
-			st := in.(*ssa.Store)
-			c.Check("F", fnName(fn)+"/stores the verified part at its own index", pathOf(st.Addr) == "&ps.parts[part.Index]" && pathOf(st.Val) == "part", instrPos(in), 1, describeInstr(in))
-		}
-		for _, in := range findInstrs(fn, StoreTo(`^&ps\.count$`)) {
-			c.Check("F", fnName(fn)+"/count grows by one", pathOf(in.(*ssa.Store).Val) == "(ps.count + const:1)", instrPos(in), 1, describeInstr(in))
-		}
-		c.OnlyWrittenIn("types", "PartSet", "count", 1, `^\(\*types\.PartSet\)\.AddPart$`, `^types\.NewPartSetFromData$`, `^types\.NewPartSetFromHeader$`)
-		c.OnlyWrittenIn("types", "PartSet", "parts", 1, `^\(\*types\.PartSet\)\.AddPart$`, `^types\.NewPartSetFromData$`, `^types\.NewPartSetFromHeader$`)
-	}
+	addPartRules(c)
 	if fn := c.Fn("types", "PartSet", "IsComplete"); fn != nil {
 		ok := false
 		allInstrs(fn, false, func(_ *ssa.Function, in ssa.Instruction) {
@@ -183,6 +166,7 @@ func runC13(c *Ctx) {
 		c.Check("S", fnName(fn)+"/LastCommitHash = lastCommit.Hash()", lc, fn.Pos(), 1, "")
 		c.Check("S", fnName(fn)+"/EvidenceHash = evidence.Hash()", ev, fn.Pos(), 1, "")
 	}
+	c.deriveShaCoverage()
 	if fn := c.Fn("types", "Transactions", "Hash"); fn != nil {
 		n := len(findInstrs(fn, CallTo(`^types\.DeriveSha$`, "")))
 		c.Check("S", fnName(fn)+"/is DeriveSha (as in NewBlock)", n == 1, fn.Pos(), n, "proposer and validator must derive the transaction root the same way")
@@ -358,4 +342,132 @@ func (c *Ctx) effectsExcluding(fn *ssa.Function, depth int, skip map[string]bool
 	}
 	visit(fn, depth)
 	return e
+}
+
+// addPartRules: a part enters the set only behind bounds, slot, proof and index-binding guards (shared by C04, C13, C18).
+func addPartRules(c *Ctx) {
+	// ---- AddPart ------------------------------------------------------------------------------------
+	if fn := c.Fn("types", "PartSet", "AddPart"); fn != nil {
+		c.Guarded(fn, "store ps.parts[part.Index] / count++", StoreTo(`^&ps\.(parts\[part\.Index\]|count)$`),
+			G("part.Index < ps.total", Cmp(`^part\.Index$`, "<", `^ps\.total$`)),
+			G("ps.parts[part.Index] == nil", IsNil(`^ps\.parts\[part\.Index\]$`)),
+			G("part.Proof.Verify(ps.Hash(), part.Bytes) == nil", IsNil(`^call:\(\*lib/merkle\.SimpleProof\)\.Verify\(&part\.Proof, call:\(lib/common\.Hash\)\.Bytes\(call:\(\*types\.PartSet\)\.Hash\(ps\)\), part\.Bytes\)$`)),
+			G("part.Proof.Index == part.Index (the slot is the index the proof verified)", Cmp(`^part\.Proof\.Index$`, "==", `^part\.Index$`)),
+			G("part.Proof.Total == ps.total (the proof is for a tree of this many parts)", Cmp(`^part\.Proof\.Total$`, "==", `^ps\.total$`)))
+		for _, in := range findInstrs(fn, StoreTo(`^&ps\.parts\[`)) {
+			st := in.(*ssa.Store)
+			c.Check("F", fnName(fn)+"/stores the verified part at its own index", pathOf(st.Addr) == "&ps.parts[part.Index]" && pathOf(st.Val) == "part", instrPos(in), 1, describeInstr(in))
+		}
+		for _, in := range findInstrs(fn, StoreTo(`^&ps\.count$`)) {
+			c.Check("F", fnName(fn)+"/count grows by one", pathOf(in.(*ssa.Store).Val) == "(ps.count + const:1)", instrPos(in), 1, describeInstr(in))
+		}
+		// the slot test and the slot/count update are atomic (no check-then-act window for concurrent duplicates)
+		c.CriticalSection(fn, `^&ps\.mtx`, "slot-empty test and slot/count update", Or(StoreTo(`^&ps\.(parts\[part\.Index\]|count)$`), func(in ssa.Instruction) bool {
+			iff, ok := in.(*ssa.If)
+			if !ok {
+				return false
+			}
+			m, _ := matchCond(IsNil(`^ps\.parts\[part\.Index\]$`), iff.Cond)
+			return m
+		}))
+		c.OnlyWrittenIn("types", "PartSet", "count", 1, `^\(\*types\.PartSet\)\.AddPart$`, `^types\.NewPartSetFromData$`, `^types\.NewPartSetFromHeader$`)
+		c.OnlyWrittenIn("types", "PartSet", "parts", 1, `^\(\*types\.PartSet\)\.AddPart$`, `^types\.NewPartSetFromData$`, `^types\.NewPartSetFromHeader$`)
+	}
+}
+
+// deriveShaCoverage: the insertion sequence of DeriveSha ({0} ∪ [a0..u] ∪ [b0..)) covers every list index.
+func (c *Ctx) deriveShaCoverage() {
+	fn := c.Fn("types", "", "DeriveSha")
+	if fn == nil {
+		return
+	}
+	key := fnName(fn) + "/every list index is inserted into the root"
+	type loop struct {
+		start int64
+		upper int64 // inclusive constant upper bound, -1 = only bounded by Len
+		usesLen bool
+	}
+	var loops []loop
+	single := map[int64]bool{}
+	for _, b := range fn.Blocks {
+		for _, in := range b.Instrs {
+			phi, ok := in.(*ssa.Phi)
+			if !ok || len(phi.Edges) != 2 {
+				continue
+			}
+			var start int64 = -1
+			inc := false
+			for _, e := range phi.Edges {
+				if k, ok := constIntVal(e); ok {
+					start = k
+				} else if bo, ok := e.(*ssa.BinOp); ok && bo.Op.String() == "+" && bo.X == phi && isConstInt(bo.Y, 1) {
+					inc = true
+				}
+			}
+			if start < 0 || !inc {
+				continue
+			}
+			l := loop{start: start, upper: -1}
+			for _, ref := range *phi.Referrers() {
+				bo, ok := ref.(*ssa.BinOp)
+				if !ok || !isCmp(bo.Op) || bo.X != phi {
+					continue
+				}
+				if k, ok := constIntVal(bo.Y); ok {
+					switch bo.Op.String() {
+					case "<=":
+						l.upper = k
+					case "<":
+						l.upper = k - 1
+					}
+				} else if strings.Contains(pathOf(bo.Y), ".Len(list)") && bo.Op.String() == "<" {
+					l.usesLen = true
+				}
+			}
+			// the counter must be what is inserted
+			used := false
+			for _, ref := range *phi.Referrers() {
+				if cl, ok := ref.(*ssa.Call); ok && strings.HasSuffix(calleeNameNoPath(&cl.Call), "encodeForDerive") {
+					used = true
+				}
+			}
+			if used && l.usesLen {
+				loops = append(loops, l)
+			}
+		}
+	}
+	for _, in := range findInstrs(fn, CallTo(`^types\.encodeForDerive$`, "")) {
+		a := callCommon(in).Args
+		if len(a) == 3 {
+			if k, ok := constIntVal(a[1]); ok {
+				single[k] = true
+			}
+		}
+	}
+	// coverage of [0, N) for any N: walk the integers from 0 until an unbounded loop covers the rest
+	covered := func(i int64) (bool, bool) { // (covered, coveredForever)
+		if single[i] {
+			return true, false
+		}
+		for _, l := range loops {
+			if i >= l.start && (l.upper < 0 || i <= l.upper) {
+				return true, l.upper < 0
+			}
+		}
+		return false, false
+	}
+	gap := int64(-1)
+	done := false
+	for i := int64(0); i < 100000 && !done; i++ {
+		ok, forever := covered(i)
+		if !ok {
+			gap = i
+			break
+		}
+		if forever {
+			done = true
+		}
+	}
+	c.Check("T", key, gap < 0 && done && len(loops) >= 1, fn.Pos(), len(loops)+len(single),
+		fmt.Sprintf("DeriveSha inserts index sets %v and single indices %v; list index %d is never inserted, so the transaction root (Header.TxHash) does not commit to that transaction and a block with it replaced keeps its id", loops, single, gap))
 }
